@@ -60,6 +60,10 @@ class Ctx:
         self.phi = None
         self.extra_smt = []      # assumptions added during interpretation (e.g. monotonicity of Phi atoms)
         self.var_bounds = {}     # name -> (lo, hi) declared bounds (e.g. Phi atoms in (0,1))
+        # exp aliases: variable name -> (T name, scale): exp(scale * var) is the field generator T.  var and
+        # exp(scale*var) are algebraically independent, so an identity over Q(.., var, T) holds in particular at
+        # T = exp(scale*var) (unsat is sound); models are replayed on the real code, never reported directly.
+        self.exp_subst = {}
         self.ZERO = S(self, {})
         self.ONE = S(self, {self._k0(): self.one})
         self._pospoly_cache = {}
@@ -207,6 +211,31 @@ class Ctx:
         if a is None or b is None:
             return None
         return a * b
+
+    def split_linear(self, k, vname):
+        """k = q * var + rest with q a rational constant and rest free of var, else None"""
+        idx = self.names.index(vname)
+        for mono in k.denom.keys():
+            if mono[idx]:
+                return None
+        p0 = self.ring.zero
+        p1 = self.ring.zero
+        for mono, c in k.numer.terms():
+            e = mono[idx]
+            if e == 0:
+                p0 = p0 + self.ring.term_new(mono, c)
+            elif e == 1:
+                m2 = tuple(0 if i == idx else x for i, x in enumerate(mono))
+                p1 = p1 + self.ring.term_new(m2, c)
+            else:
+                return None
+        if p1 == 0:
+            return None
+        qk = self.K(p1) / self.K(k.denom)
+        if not (qk.numer.is_ground and qk.denom.is_ground):
+            return None
+        q = _frac(qk.numer.LC) / _frac(qk.denom.LC)
+        return q, self.K(p0) / self.K(k.denom)
 
     def atom_square(self, G):
         """square of a sqrt-key atom: prime int p (sqrt p), polynomial g (sqrt g), ('abs', f) (|f|)"""
@@ -372,6 +401,8 @@ class S:
     __rmul__ = __mul__
 
     def inv(self):
+        if not self.t:
+            return Ext(self.ctx, "+inf")     # IEEE: 1/(+0) = +inf, and 0 * inf = nan (so 0/0 = nan)
         if len(self.t) != 1:
             raise Unsupported("division by multi-term element")
         ((e, s, l), c), = self.t.items()
@@ -497,6 +528,14 @@ class S:
                 d[int(p)] = d.get(int(p), Fraction(0)) + m
             for p, m in _prime_factors(const.denominator).items() if const.denominator > 1 else []:
                 d[int(p)] = d.get(int(p), Fraction(0)) - m
+        if ctx.exp_subst:
+            # ln T = scale * var for an exp alias T = exp(scale * var)
+            for vname, (tname, scale) in ctx.exp_subst.items():
+                Tp = ctx.g[tname].numer
+                q = d.pop(Tp, None)
+                if q:
+                    qq = q * scale
+                    out = out + ctx.var(vname) * ctx.const(qq)
         t = dict(out.t)
         for H, q in d.items():
             if q:
@@ -534,6 +573,17 @@ class S:
                 res = res * (base ** int(q.numerator)).sqrt()
             else:
                 raise Unsupported("exp of ln with coefficient denominator > 2")
+        if r != 0 and ctx.exp_subst:
+            for vname, (tname, scale) in ctx.exp_subst.items():
+                sp = ctx.split_linear(r, vname)
+                if sp is None:
+                    continue
+                q, rest = sp
+                m = q / scale
+                if m == 0 or m.denominator != 1:
+                    continue
+                res = res * ctx.var(tname) ** int(m)
+                r = rest
         if r != 0:
             res = res * S(ctx, {(r, frozenset(), frozenset()): ctx.one})
         return res
